@@ -73,7 +73,7 @@ Definition tguard (s : sst) (k : cls) : bool :=
 
 Definition allK : list sctx := [K0; KT; KS; KD].
 Definition allX : list sx := [XTop; XLit QS; XLit QD].
-Definition allD : list dsub := [DTxt; DSl; DLc; DBlk; DBlkSt; DDq; DSq].
+Definition allD : list dsub := [DTxt; DSl; DLc; DBlk; DBlkSt; DDq; DSq; DEscT; DEscD; DEscS].
 Definition allQ : list sq :=
   map SBol allK ++ map SIn allX ++ map SAmp allX ++ map SBang allK ++ map SSent allK ++ map SCmt allK ++
   flat_map (fun k => map (SDir k) allD) allK.
@@ -91,7 +91,6 @@ Lemma step_table :
                                         (stacks_for q)) allM) allQ = true.
 Proof. vm_compute. reflexivity. Qed.
 
-Definition is_mM (m : mark) : bool := match m with mM => true | _ => false end.
 
 Definition eol_ok (q : sq) (m : mark) (st : list fmode) (b : bcls) : bool :=
   implb (mb q m b && eguard (q, m))
@@ -132,7 +131,7 @@ Proof.
   rewrite Ea. exact T.
 Qed.
 
-Definition sfold (s : sst) (cs : list ascii) : sst := fold_left (fun s c => sstep s (cls_of c)) cs s.
+Definition sfold (s : sst) (cs : list ascii) : sst := sfold0 s cs.
 
 Fixpoint tguards (s : sst) (cs : list ascii) : bool :=
   match cs with
